@@ -411,6 +411,35 @@ func runC20(c *Ctx) {
 			c.Check("L2-start-of-own-context", key, ps.ok, ps.handler.Pos(), "%s", orStr(ps.why, "ctx.GetStart()/GetText() of the handler's own context, no arithmetic"))
 		}
 	}
+	// ... and a node that cites its position was made where its position is known: by a handler of the listener.
+	// A node of such a type made anywhere else (a compound assignment "lowered" at compile time into a new
+	// operation node plus a read of the target) has the zero position, and what fails there cites line 0
+	nMade := 0
+	for _, f := range c.AllFns {
+		if f.Pkg == nil || !strings.HasPrefix(f.Pkg.Pkg.Path(), modPath) || f.Pkg.Pkg.Path() == pParser {
+			continue
+		}
+		root := rootOf(f)
+		eachInstr(f, func(in ssa.Instruction) {
+			al, ok := in.(*ssa.Alloc)
+			if !ok {
+				return
+			}
+			nt, isN := al.Type().(*types.Pointer).Elem().(*types.Named)
+			if !isN || nt.Obj().Pkg() == nil || nt.Obj().Pkg().Path() != pBase || !citing[nt.Obj().Name()] {
+				return
+			}
+			if _, isStruct := nt.Underlying().(*types.Struct); !isStruct {
+				return
+			}
+			nMade++
+			inListener := root.Pkg != nil && root.Pkg.Pkg.Path() == pIparser && recvName(root) == "GengineParserListener"
+			c.Check("L1-citing-nodes-populated", fmt.Sprintf("%s#makes-%s", fnName(root), nt.Obj().Name()), inListener, in.Pos(), "a %s node, which cites its position in errors, is made in %s: only a handler of the listener knows the position to give it", nt.Obj().Name(), fnName(root))
+		})
+	}
+	if nMade == 0 {
+		c.Lost("L1-citing-nodes-populated", "allocations of citing node types")
+	}
 	// nodes that are populated but not citing are fine; check L2 for them too (a wrong value would surface once they cite)
 	var others []string
 	for t := range stores {
